@@ -95,7 +95,17 @@ def sweep(row):
     return "%s %s -> %s %s" % (sid, meta["checks"]["when_it_arrived"], meta["checks"].get("now", "?"), meta["checks"].get("now_key", ""))
 
 
-with cf.ThreadPoolExecutor(max_workers=jobs) as ex:
-    for r in ex.map(sweep, rows):
-        print(r, flush=True)
+def disk_used():
+    st = os.statvfs("/")
+    return 1.0 - st.f_bavail / st.f_blocks
+
+
+# in chunks, so that the go build cache (every scratch worktree compiles the
+# library afresh) can be emptied while nothing is building
+for i in range(0, len(rows), jobs * 4):
+    with cf.ThreadPoolExecutor(max_workers=jobs) as ex:
+        for r in ex.map(sweep, rows[i:i + jobs * 4]):
+            print(r, flush=True)
+    if run and disk_used() > 0.6:
+        subprocess.run(["go", "clean", "-cache"], env=dict(os.environ, GOFLAGS="-mod=mod", GOTOOLCHAIN="local"))
 subprocess.run([sys.executable, os.path.join(ROOT, "tools", "seedtable.py")])
